@@ -44,7 +44,9 @@ deriving Repr, Inhabited
 
 /-- THE SWITCH for the Fill repair (fixes/C09-fill-zero-width.patch): `false` = pinned tree (Fill stores width 1 for
     every rune, cell.go:244, so GetContent does not blank a DEL / C1 / zero-width rune written by Fill), `true` once the
-    patch is committed in /repo (Fill stores width 0 for a rune whose RuneWidth is 0, exactly as SetContent does).
+    patch is committed in /repo (Fill replaces a rune whose RuneWidth is 0 by ' ' before storing it: the same blank
+    GetContent substitutes for such a rune stored by SetContent; the width stays 1, so SetContent's forced-dirty
+    branch and the guarded-blank invariant `BlankOk` of the draw path are unaffected).
     The constant is only the *default* of `DrawCfg.fillZW`; both behaviours stay modelled (`Buf.fillV`), the theorems
     quantify over the variant, and the correspondence drivers take it from the case line (`+fz` after the entry name,
     pseudo-op `V fz` for cb, sixth variant letter for sim, `variant fz` for wasm draw; probed by `fillZWSuffix` in
@@ -71,13 +73,11 @@ def carry (oc : Cell) : Cell :=
 def filled (c : Cell) (r : Rune) (style : Style) : Cell :=
   { c with currMain := r, currComb := [], currStyle := c.currStyle.merge style, width := 1 }
 
-/-- the width Fill records for rune `r`: pinned tree 1 whatever the rune (cell.go:244); repaired tree
-    `if runewidth.RuneWidth(r) == 0 { width = 0 }` (wide runes stay "unsupported": width 1) -/
-def fillWidth (fz : Bool) (rw : Rune → Int) (r : Rune) : Int := if fz = true ∧ rw r = 0 then 0 else 1
-
-/-- the per-cell effect of Fill with the recorded width as a parameter (both variants) -/
-def filledW (c : Cell) (r : Rune) (style : Style) (wd : Int) : Cell :=
-  { c with currMain := r, currComb := [], currStyle := c.currStyle.merge style, width := wd }
+/-- the rune Fill stores for `r`: the pinned tree stores `r` itself (cell.go:234); the tree repaired by
+    fixes/C09-fill-zero-width.patch substitutes a blank for a rune that has no width
+    (`if runewidth.RuneWidth(r) == 0 { r = ' ' }` before the loop): controls, DEL, C1, zero-width / format characters,
+    invalid code points.  The recorded width is 1 on both trees. -/
+def fillRune (fz : Bool) (rw : Rune → Int) (r : Rune) : Rune := if fz = true ∧ rw r = 0 then 32 else r
 
 /-- step 2 of SetContent: store (cell.go:67-79) -/
 def store (rw : Rune → Int) (c : Cell) (mainc : Rune) (combc : List Rune) (style : Style) : Cell :=
@@ -177,7 +177,7 @@ def fill (b : Buf) (r : Rune) (style : Style) : Buf :=
 /-- Fill of either tree: `fz = false` the pinned one (= `fill`, see `fillV_false`), `fz = true` the one repaired by
     fixes/C09-fill-zero-width.patch -/
 def fillV (fz : Bool) (rw : Rune → Int) (b : Buf) (r : Rune) (style : Style) : Buf :=
-  { b with cells := fun i j => (b.cells i j).filledW r style (Cell.fillWidth fz rw r) }
+  b.fill (Cell.fillRune fz rw r) style
 
 def size (b : Buf) : Int × Int := (b.w, b.h)
 
